@@ -54,7 +54,11 @@ pub mod fail {
 
     /// Stop counting and disarm. Returns `(per-site hit counts, fired list, ordered trace)`.
     #[must_use]
-    pub fn end() -> (Vec<(&'static str, u64)>, Vec<(&'static str, u64)>, Vec<(&'static str, u64)>) {
+    pub fn end() -> (
+        Vec<(&'static str, u64)>,
+        Vec<(&'static str, u64)>,
+        Vec<(&'static str, u64)>,
+    ) {
         STATE.with(|s| {
             let mut s = s.borrow_mut();
             s.counting = false;
@@ -226,7 +230,10 @@ pub mod tick {
             }
         });
         let limit = LIMIT.with(Cell::get);
-        assert!(t <= limit, "{CEILING_MARKER} (kind={kind}, ticks={t}, limit={limit})");
+        assert!(
+            t <= limit,
+            "{CEILING_MARKER} (kind={kind}, ticks={t}, limit={limit})"
+        );
     }
 }
 
